@@ -78,6 +78,11 @@ func Generate(r *vk.RNG, p Profile) *App {
 	for i := 1; i < nn; i++ {
 		names = append(names, fmt.Sprintf("n%d", i))
 	}
+	if rt := vk.CaseRNG(0xca5e, fmt.Sprint(nn, p.MaxNodes, a.FlagCount, len(g.flags))); nn >= 3 && rt.Chance(1, 4) {
+		// two nodes whose names differ only in letter case (n1 / N1): different nodes to the library, to the stores and
+		// to the model (decided by a stream of its own, so that the rest of the generation is unchanged)
+		names[2] = "N1"
+	}
 	// symbols
 	ns := r.Range(2, 5)
 	for i := 0; i < ns; i++ {
